@@ -81,7 +81,7 @@ COMMON = "with allowCollisions True, with requireVisible False"
 
 def plan(tier, seed):
     n = 16 if tier == "quick" else 64
-    progs = 40 if tier == "quick" else 100
+    progs = 26 if tier == "quick" else 100
     return [{"shard": i, "programs": progs, "timeout": 1500 if tier == "quick" else 3000} for i in range(n)]
 
 
